@@ -130,6 +130,17 @@ CHECKS = {
             "four known findings (alu loop count for multi-dim patterns, xdma enabled_chan field/value mismatch, hwpe names) listed; "
             "snax_phs switch values are covered functionally by C20.",
             "symbolic execution of the real Python + symbolic IR interpreter + z3 (QF_BV) per field name", "3/C08"),
+    "C02": (OT,
+            "The real pass pipeline (insert-accfg-op, dart-scheduler, [set-memory-layout], dart-layout-resolution, "
+            "convert-dart-to-snax-stream, convert_to_acc_ops) is run on enumerated operations/shapes/layouts and observed at "
+            "dart.schedule, dart.access_pattern, snax_stream.streaming_region and the programmed accfg.setup constants. z3 proves "
+            "over a symbolic iteration point that the resolved strides give the byte address the operand's layout assigns to the "
+            "scheduled element (MLIR strided semantics / the TSL function of C10, incl. layout offset) and over a symbolic temporal "
+            "step that the streamer machine touches exactly the bytes of the elements scheduled for that step (spatial boxes "
+            "expanded); the programmed bounds/strides must realise the stride pattern (collapse only for stride-0 reuse dims).",
+            "shapes/layouts enumerated (alu 1-D/2-D i64, gemmx matmul i8->i32/i8, identity/strided/offset/TSL chosen or explicit 2- and "
+            "3-level); xDMA extension rewrites and gemm-with-add/rescale-only kernels not covered; known finding: layout offsets dropped.",
+            "concrete pipeline observation + z3 queries over symbolic iteration points / temporal steps (LIA with concrete div/mod)", "3/C02"),
 }
 
 NOT_YET = "check not built yet (work in progress in this round); no claim is made"
